@@ -14,6 +14,8 @@ LEVEL_TEXT = ("The only cross-call state of the typing code is the compiled patt
               "A has been queried through the public API, K's verdict, overhangs and target on a symbolic record equal the "
               "answers of a cleared cache, z3 producing the distinguishing record otherwise.  Bounded claim.")
 LEVEL_NOTE = ("Bounds: (1) all catalogued classes, MRO depth as in the source; (2) 6 pairs quick / all pairs thorough, n = F+1, "
+              "plus priming of classes outside the MRO (sibling, unrelated kit class, a second user class with the same "
+              "__name__); "
               "record with a unique generic occurrence. Classes outside K's MRO cannot influence attribute lookup on K (Python "
               "semantics). 'Fresh interpreter' is replaced by 'cleared cache state'. Bio.Restriction's class-level scratch "
               "attributes are outside the model. Trusted: z3, CPython, symx models.")
@@ -161,6 +163,56 @@ def ob_content(ctx):
     return True
 
 
+def _foreign_pair(st, P):
+    """(X, K): X is primed first, K is asked afterwards; X is not in K's MRO"""
+    if P["pair"] == "same-name":
+        # two distinct user classes that happen to share their __name__ (factory / loop idiom)
+        key = (st.kind, "same-name")
+        if key not in _DYN:
+            base = (st.parts.AbstractPart, st.modules.Entry)
+            X = type(str("CustomPart"), base, {"cutter": st.enzyme("BsaI"), "signature": ("ATGC", "ATTC")})
+            K = type(str("CustomPart"), base, {"cutter": st.enzyme("BsaI"), "signature": ("GGAG", "CGCT")})
+            _DYN[key] = (X, K)
+        return _DYN[key]
+    X = kit_class(st, P["xkit"], P["x"])
+    K = kit_class(st, P["kit"], P["cls"])
+    return X, K
+
+
+def ob_foreign(ctx):
+    """priming a class outside K's MRO (a sibling, an unrelated kit class, a same-named user class) changes nothing"""
+    from .c05 import matches_sig
+
+    st = ctx.stack
+    P = ctx.P
+    n = P["n"]
+    X, K = _foreign_pair(st, P)
+    G = generic_class(st, role_of(st, K), str(getattr(K.cutter, "real", K.cutter)))
+    r = ctx.mk.seq("r", n, "ACGT")
+    unique_at_zero(ctx, G.structure(), r, n)
+    rec = st.record.CircularRecord(st.Seq(r), id="rec")
+    allc = structured_mro(st, K) + structured_mro(st, X) + structured_mro(st, G)
+    clear(allc)
+    try:
+        X(st.record.CircularRecord(st.Seq("ACGTACGT"), id="p")).is_valid()
+        X(rec).is_valid()
+        k = K(rec)
+        vk = k.is_valid()
+        ctx.observe("valid", vk)
+        ctx.require(pattern_text(K._get_regex()) == K.structure(), "class-uses-another-class's-pattern")
+        sig = getattr(K, "signature", NotImplemented)
+        base = st.parts.AbstractPart.structure
+        if sig is not NotImplemented and getattr(K.structure, "__func__", None) is getattr(base, "__func__", base):
+            g = G(rec)
+            vg = g.is_valid()
+            want = And(matches_sig(g.overhang_start(), sig[0]), matches_sig(g.overhang_end(), sig[1])) if vg else False
+            ctx.require(Iff(vk, want), "verdict-after-priming-a-foreign-class-differs-from-signature-semantics")
+        ctx.witness("accepted" if vk else "rejected")
+    finally:
+        clear(allc)
+    return True
+
+
 def obligations(tier, seed):
     from symx import loader
 
@@ -172,6 +224,15 @@ def obligations(tier, seed):
     for kit, name in (("ytk", "YTKPart1"), ("cidar", "CIDAREntry"), ("ecoflex", "EcoFlexPromoter"), ("ytk", "YTKPart8")):
         obs.append(Ob("cache state subclass of %s.%s created at run time" % (kit, name), ob_state,
                       dict(src="dyn", kit=kit, cls=name), samples=3, cost=2, group="state"))
+    foreign = [dict(pair="same-name"), dict(pair="kit", xkit="ytk", x="YTKPart2", kit="ytk", cls="YTKPart1"),
+               dict(pair="kit", xkit="cidar", x="CIDARPromoter", kit="ytk", cls="YTKPart1"),
+               dict(pair="kit", xkit="ytk", x="YTKPart8", kit="ytk", cls="YTKPart8a")]
+    if tier != "quick":
+        foreign += [dict(pair="kit", xkit="moclo", x="MoCloPro", kit="plant", cls="PlantPro5U"),
+                    dict(pair="kit", xkit="ecoflex", x="EcoFlexRBS", kit="ecoflex", cls="EcoFlexTag")]
+    for f in foreign:
+        nm = "same-named user classes" if f["pair"] == "same-name" else "%s.%s after %s.%s" % (f["kit"], f["cls"], f["xkit"], f["x"])
+        obs.append(Ob("foreign priming: " + nm, ob_foreign, dict(f, n=25), samples=4, cost=25 ** 3, group="foreign"))
     ps = pairs(st)
     if tier == "quick":
         seen, pick = set(), []
